@@ -1,4 +1,5 @@
 import Rangers.Proofs.GroupChainCrash
+import Rangers.Proofs.GroupChainMirror
 /-!
 Property C19 — the group chain is a gap-free linked list whose height index matches it.
 
@@ -268,5 +269,134 @@ theorem inv_crash_remove_counterexample : ¬ FullStatementCrashRemove := by
     decide
   rw [hd] at h1
   cases h1
+
+/-! ## D. Concurrent callers
+
+The model's `addGroup` is one atomic step (check, then `save`). The real `AddGroup` earns that by
+taking the chain lock before it reads `lastGroup` (`Props/C19Facts.lean: lock_discipline`, checked
+against the source on every run; the harness also races two real `AddGroup` calls and requires a
+sequential explanation). The two theorems below say what atomicity buys. -/
+
+/-- Sequentially, of two `AddGroup`s naming the same predecessor only the first is accepted. -/
+theorem second_add_same_pre_rejected {l : List Group} {c : Chain} (r : Rep l c) (gA gB : Group)
+    (hA : addCheck c gA = .ok) (hpre : gB.pre = gA.pre) : addCheck (save c gA) gB ≠ .ok := by
+  intro hB
+  obtain ⟨h1, _, h3⟩ := addCheck_ok hA
+  obtain ⟨_, _, h3'⟩ := addCheck_ok hB
+  have hlast : (save c gA).last.id = gA.id := rfl
+  rw [hlast, hpre, ← h3] at h3'
+  -- gA.id = c.last.id, but gA.id is not stored while the last group is
+  have := r.stored c.last r.last_mem
+  rw [← h3'] at this
+  simp [shas, this] at h1
+
+/-- If both calls run their checks against the same state and then both `save` (the lock taken
+    only around `save`), the result need not represent any list. -/
+def FullStatementSplitAdd : Prop :=
+  ∀ (l : List Group) (c : Chain) (gA gB : Group), Rep l c → IdOK gA.id → IdOK gB.id → gA.id ≠ gB.id →
+    addCheck c gA = .ok → addCheck c gB = .ok → ∃ l', Rep l' (save (save c gA) gB)
+
+theorem split_add_counterexample : ¬ FullStatementSplitAdd := by
+  intro h
+  obtain ⟨l', r'⟩ := h [g0] c1 gA gB rep_c1 (by simp [IdOK, gA, cntKey]) (by simp [IdOK, gB, cntKey])
+    (by decide) (by decide) (by decide)
+  have := rep_count_eq_iter r'
+  revert this
+  decide
+
+/-! ## E. Crash points during the very first start-up, and crashes of the start-up after a crash -/
+
+def FullStatementFirstBootCrash : Prop :=
+  ∀ (gs : List Group) (k : Nat) (d : Store) (m : List Bytes), GenesisOK gs →
+    firstBootB [] [] gs k = some (.crashed d m) → ∃ c l, restart d m gs = some (.alive c) ∧ Rep l c
+
+/-- Proved part, including double crashes: the first start-up cut after ≤ 1 write, the start-up
+    after it cut again after ≤ 1 write, … any number of times (`FreshFor` is kept) — the next
+    uninterrupted start-up represents exactly the genesis list. -/
+theorem inv_first_boot_crash_partial {g0 : Group} {rest : List Group} (ok : GenesisOK (g0 :: rest))
+    (k1 k2 : Nat) (h1 : k1 ≤ 1) (h2 : k2 ≤ 1) :
+    ∃ d1 d2 c, firstBootB [] [] (g0 :: rest) k1 = some (.crashed d1 []) ∧
+      firstBootB d1 [] (g0 :: rest) k2 = some (.crashed d2 []) ∧
+      restart d2 [] (g0 :: rest) = some (.alive c) ∧ Rep (stampFrom 0 (g0 :: rest)) c := by
+  obtain ⟨d1, e1, f1⟩ := firstBoot_le1 ok [] [] (fun _ _ => rfl) k1 h1
+  obtain ⟨d2, e2, f2⟩ := firstBoot_le1 ok d1 [] f1 k2 h2
+  obtain ⟨c, e3, r⟩ := rep_init_fresh ok d2 [] f2
+  exact ⟨d1, d2, c, e1, e2, e3, r⟩
+
+/-- Known finding crash:firstboot:k2 — [bootcrash 2 - g0]: `gcurrent` is written, `gcount` is not;
+    the next start-up takes the non-genesis branch with `count = 0` and a one-group list. -/
+theorem inv_first_boot_crash_counterexample : ¬ FullStatementFirstBootCrash := by
+  intro h
+  obtain ⟨c, l, h1, r⟩ := h [g0] 2 (applyPrefix 2 [] (saveWrites 0 g0)) [] genesisOK_g0 (by decide)
+  have hc : restart (applyPrefix 2 [] (saveWrites 0 g0)) [] [g0] =
+      some (.alive { disk := applyPrefix 2 [] (saveWrites 0 g0), count := 0, last := stamped 0 g0,
+                     mirror := refreshCache (applyPrefix 2 [] (saveWrites 0 g0)) 0 (stamped 0 g0) [] }) := by
+    decide
+  rw [hc] at h1
+  simp at h1
+  subst h1
+  have := rep_count_eq_iter r
+  revert this
+  decide
+
+/-- A first start-up with two genesis groups cut exactly between them comes back as a valid chain
+    of the first group only: the second genesis group is silently never added. -/
+theorem first_boot_cut_between_genesis :
+    ∃ d m c, firstBootB [] [] [g0, gA] 4 = some (.crashed d m) ∧
+      restart d m [g0, gA] = some (.alive c) ∧ Rep [g0] c := by
+  have hd : firstBootB [] [] [g0, gA] 4 = some (.crashed c1.disk c1.mirror) := by decide
+  obtain ⟨c', e, _, _, _, r⟩ := rep_restart rep_c1 c1.mirror [g0, gA]
+  exact ⟨c1.disk, c1.mirror, c', hd, e, r⟩
+
+/-! ## F. Remaining read paths -/
+
+/-- `GetSyncGroupsById(id)` of the listed group at index `i` returns exactly the next (at most
+    five) listed groups — what a peer that is behind receives. -/
+theorem sync_by_id_exact {l : List Group} {c : Chain} (r : Rep l c) (i : Nat) (g : Group)
+    (hg : l[i]? = some g) (hb : l.length + 6 < lenBound) :
+    syncById c.disk g.id = ((l.drop (i + 1)).take 5).map some := syncById_rep r i g hg hb
+
+/-- `getFirstGroupBelowHeight(x)` (common-ancestor choice of the fork switch) returns the newest
+    listed group created at or below block height `x`, `none` only if no listed group is. -/
+theorem first_below_is_newest_listed {l : List Group} {c : Chain} (r : Rep l c) (x : Nat) :
+    firstBelow c x = l.reverse.find? (fun g => decide (g.create ≤ x)) := firstBelow_rep r x
+
+/-- `height()` is the index of the last group. -/
+theorem top_height_is_last_index {l : List Group} {c : Chain} (r : Rep l c) :
+    topHeight c = l.length - 1 ∧ getGroupByHeight c.disk (topHeight c) = some c.last := by
+  have h := topHeight_rep r
+  exact ⟨h, by rw [h]; exact r.byHeight_lt r.last_idx⟩
+
+/-- The "genesis" that `availableGroupsAt` falls back to (`GetGroupByHeight(0)`) is `l[0]`. -/
+theorem height_zero_is_genesis {l : List Group} {c : Chain} (r : Rep l c) :
+    getGroupByHeight c.disk 0 = l.head? := by
+  cases l with
+  | nil => exact absurd rfl r.ne
+  | cons a t => simpa using r.byHeight_lt (i := 0) (g := a) (by simp)
+
+example : firstBelow c2 0 = some g0 := by decide
+
+/-! ## G. The sqlite mirror (`groupIndex`) -/
+
+/-- One step keeps both the chain representation and "mirror = the listed ids". -/
+theorem mirror_step {l : List Group} {c : Chain} (r : Rep l c) (hm : c.mirror.Perm (l.map (·.id)))
+    (gen : List Group) (op : Op) (hok : OpOK op) (hb : l.length + 1 < lenBound) :
+    ∃ c', stepOp gen c op = some c' ∧ Rep (specStep l c op) c' ∧
+      c'.mirror.Perm ((specStep l c op).map (·.id)) := by
+  obtain ⟨c', h1, h2, h3⟩ := rep2_step ⟨r, hm⟩ gen op hok hb
+  exact ⟨c', h1, h2, h3⟩
+
+/-- From first start-up (empty sqlite table), after any sequence of completed operations the
+    mirror table holds exactly the ids of the listed groups; in particular `CountGroups()` equals
+    `Count()`, so `refreshCache` is a no-op at every restart. -/
+theorem mirror_agrees_reachable {gs : List Group} (ok : GenesisOK gs) (ops : List Op)
+    (hops : ∀ op ∈ ops, OpOK op) (hb : gs.length + ops.length < lenBound) :
+    ∃ c0 c l, restart [] [] gs = some (.alive c0) ∧ runOps gs c0 ops = some c ∧ Rep l c ∧
+      c.mirror.Perm (l.map (·.id)) ∧ c.mirror.length = c.count := by
+  obtain ⟨c0, h0, r0⟩ := rep2_init ok
+  obtain ⟨c, l, h1, r1⟩ := rep2_run gs ops (stampFrom 0 gs) c0 r0 hops (by rw [stampFrom_length]; exact hb)
+  exact ⟨c0, c, l, h0, h1, r1.1, r1.2, by rw [r1.2.length, r1.1.count]⟩
+
+example : c2.mirror.Perm ([g0, stamped 1 gA].map (·.id)) := by decide
 
 end Rangers.Props.C19
